@@ -135,6 +135,10 @@ def run(ck):
         K = logu(rng, 0.05, 50) / p_sat          # 1/Pa: saturation of the monolayer around a fraction of p_sat
         params = {"K": K, "n_m": nm} if name == "Langmuir" else {"K": K, "n_m": nm, "t": t}
         loads = sorted(rng.uniform(0.01, 0.995) * nm for _ in range(rng.choice([1, 4, 10])))
+        if rng.random() < 0.5:
+            # any order, and loadings so close to saturation that their pressure exceeds p_sat anywhere in the list
+            loads = loads + [nm * (1 - 10 ** -rng.uniform(3, 9)) for _ in range(rng.randint(1, 2))]
+            rng.shuffle(loads)
 
         def p_of(n):
             if name == "Langmuir":
